@@ -470,8 +470,8 @@ class CallMixin:
             if not args:
                 return PyList([], 'deque')
             raise Unsupported('deque(iterable)')
-        if not (cls.__module__ or '').startswith('mesonbuild'):
-            if not any(is_sym(a) or contains_sym(a) for a in list(args) + list(kwargs.values())):
+        if not (cls.__module__ or '').startswith('mesonbuild') or cls.__name__ in (getattr(self.cur_contract, 'opaque_classes', None) or ()):
+            if not (cls.__module__ or '').startswith('mesonbuild') and not any(is_sym(a) or contains_sym(a) for a in list(args) + list(kwargs.values())):
                 return cls(*args, **kwargs)
             if cls.__name__ in (getattr(self.cur_contract, 'opaque_classes', None) or ()):
                 zs = self.zs
